@@ -1,8 +1,8 @@
 #!/bin/bash
 # usage: lib/confirm_seed.sh <ID> <X>   (reads /tmp/seed/<ID>/out/<X>/, confirms in a scratch worktree of the pinned commit, writes /verif/seeded/<ID>-<X>/)
-ID=$1; X=$2; SRC=/tmp/seed/$ID/out/$X; BASE=$(cat /tmp/seed/$ID/BASE)
+ID=$1; X=$2; ROOT=${3:-/tmp/seed}; NAME=${4:-$X}; SRC=$ROOT/$ID/out/$X; BASE=$(cat $ROOT/$ID/BASE)
 export GOFLAGS=-mod=mod GOPROXY=off
-WT=/tmp/confirm-$ID-$X
+WT=/tmp/confirm-$ID-$NAME
 git -C /repo worktree remove --force $WT 2>/dev/null; rm -rf $WT
 git -C /repo worktree add --detach $WT $BASE -q || exit 2
 cd $WT
@@ -33,15 +33,15 @@ rm $PKGDIR/zz_seed_demo_test.go
 go build ./... > /tmp/confirm-$ID-$X.build 2>&1; B=$?
 go test -vet=off -count=1 -timeout 20m ./... > /tmp/confirm-$ID-$X.suite 2>&1; S=$?
 OK=no; [ $D0 -eq 0 ] && [ $D1 -ne 0 ] && [ $B -eq 0 ] && [ $S -eq 0 ] && OK=yes
-echo "$ID-$X pkg=$PKGDIR run=$RUN demo_without=$D0 demo_with=$D1 build=$B suite=$S confirmed=$OK"
+echo "$ID-$NAME pkg=$PKGDIR run=$RUN demo_without=$D0 demo_with=$D1 build=$B suite=$S confirmed=$OK"
 if [ $OK = yes ]; then
-  mkdir -p /verif/seeded/$ID-$X
-  cp $SRC/patch.diff /verif/seeded/$ID-$X/patch.diff; cp $DEMO /verif/seeded/$ID-$X/demo_test.go.txt
+  mkdir -p /verif/seeded/$ID-$NAME
+  cp $SRC/patch.diff /verif/seeded/$ID-$NAME/patch.diff; cp $DEMO /verif/seeded/$ID-$NAME/demo_test.go.txt
   python3 - <<PY
 import json
 m=json.load(open('$SRC/meta.json'))
 m['confirmed_by_me']={'base_commit':'$BASE','demo_package_dir':'$PKGDIR','demo_run':'$RUN','demo_exit_without_change':$D0,'demo_exit_with_change':$D1,'go_build_exit_with_change':$B,'suite_exit_with_change':$S,'commands':['go test -vet=off -count=1 -run $RUN ./$PKGDIR/ (clean: pass, patched: fail)','go build ./... && go test -vet=off -count=1 ./... (patched: pass)']}
-json.dump(m,open('/verif/seeded/$ID-$X/meta.json','w'),indent=1)
+json.dump(m,open('/verif/seeded/$ID-$NAME/meta.json','w'),indent=1)
 PY
 fi
 cd /; git -C /repo worktree remove --force $WT; rm -rf $WT
